@@ -3,8 +3,8 @@
    core/numba_kernels.py on every run.  "potential = kernel sum" is C02's theorem. *)
 From Coq Require Import Reals String List Bool.
 From Coquelicot Require Import Coquelicot.
-From BVgen Require Import NumbaKernels Dispatch.
-From BV Require Import Kernels.KernelTactics Kernels.DispatchModel Kernels.C08Lemmas Kernels.LaplaceDerivs.
+From BVgen Require Import NumbaKernels Dispatch MaxwellIntegrands.
+From BV Require Import Kernels.KernelTactics Kernels.DispatchModel Kernels.C08Lemmas Kernels.LaplaceDerivs Kernels.MaxwellLemmas.
 Open Scope R_scope.
 
 (* the potential (= regular) single-layer kernels are u(r)/r with r = |x - y| > 0 ... *)
@@ -126,3 +126,55 @@ Theorem C08_factories_kernel_types :
   List.length (List.filter potential_like factories) = 8%nat.
 Proof. exact (conj potential_factories_kernel_types potential_factories_count). Qed.
 Print Assumptions C08_factories_kernel_types.
+
+(* the potential evaluator uses the very kernel functions of the boundary (regular) assembler: select_numba_kernels returns
+   kernel_functions_regular[kernel_type] in mode "potential" (checked by the translator, fail closed) *)
+Theorem C08_potential_kernels_are_regular_kernels :
+  numba_kernel_functions_potential = numba_kernel_functions_regular.
+Proof. exact eq_refl. Qed.
+Print Assumptions C08_potential_kernels_are_regular_kernels.
+
+(* the gradient slots of fmm.helpers.helmholtz_kernel are the partial derivatives of the Helmholtz single-layer kernel with
+   respect to the evaluation point (complex k, re and im) *)
+Theorem C08_helmholtz_gradient_is_derivative : forall x0 x1 x2 y0 y1 y2 nx0 nx1 nx2 ny0 ny1 ny2 p0 p1 : R,
+  (x0, x1, x2) <> (y0, y1, y2) ->
+  (is_derive (fun t => helmholtz_single_layer_regular_re (x0 + t) x1 x2 y0 y1 y2 nx0 nx1 nx2 ny0 ny1 ny2 p0 p1) 0
+             (fmm_helmholtz_kernel_1_re x0 x1 x2 y0 y1 y2 p0 p1) /\
+   is_derive (fun t => helmholtz_single_layer_regular_im (x0 + t) x1 x2 y0 y1 y2 nx0 nx1 nx2 ny0 ny1 ny2 p0 p1) 0
+             (fmm_helmholtz_kernel_1_im x0 x1 x2 y0 y1 y2 p0 p1)) /\
+  (is_derive (fun t => helmholtz_single_layer_regular_re x0 (x1 + t) x2 y0 y1 y2 nx0 nx1 nx2 ny0 ny1 ny2 p0 p1) 0
+             (fmm_helmholtz_kernel_2_re x0 x1 x2 y0 y1 y2 p0 p1) /\
+   is_derive (fun t => helmholtz_single_layer_regular_im x0 (x1 + t) x2 y0 y1 y2 nx0 nx1 nx2 ny0 ny1 ny2 p0 p1) 0
+             (fmm_helmholtz_kernel_2_im x0 x1 x2 y0 y1 y2 p0 p1)) /\
+  (is_derive (fun t => helmholtz_single_layer_regular_re x0 x1 (x2 + t) y0 y1 y2 nx0 nx1 nx2 ny0 ny1 ny2 p0 p1) 0
+             (fmm_helmholtz_kernel_3_re x0 x1 x2 y0 y1 y2 p0 p1) /\
+   is_derive (fun t => helmholtz_single_layer_regular_im x0 x1 (x2 + t) y0 y1 y2 nx0 nx1 nx2 ny0 ny1 ny2 p0 p1) 0
+             (fmm_helmholtz_kernel_3_im x0 x1 x2 y0 y1 y2 p0 p1)).
+Proof. exact helmholtz_gradient_is_derivative. Qed.
+Print Assumptions C08_helmholtz_gradient_is_derivative.
+
+(* Maxwell potentials, per quadrature point (integrands generated from maxwell_{e,m}field_potential): with G the Helmholtz
+   kernel, gradG its gradient (theorem above), v the accumulated vector density and q the accumulated divergence density,
+     H integrand = (gradG x v)_c = curl_x (G v)_c ,     E integrand = i k G v_c - (q/(i k)) (gradG)_c .
+   Hence curl_x E = i k H up to curl grad = 0 (symmetry of second derivatives: classical, not re-proved) -- _partial. *)
+Theorem C08_mfield_is_curl_of_efield_integrand_partial :
+  forall (c : nat) (x y : vec3) (v : cvec3) (q k : R * R), (c < 3)%nat -> x <> y ->
+  mfield_potential_integrand c x y (G_helm x y k) v q k
+    = csub (cmul (gradG ((c + 1) mod 3) x y k) (vcomp ((c + 2) mod 3) v))
+           (cmul (gradG ((c + 2) mod 3) x y k) (vcomp ((c + 1) mod 3) v)) /\
+  (fst k * fst k + snd k * snd k <> 0 ->
+   efield_potential_integrand c x y (G_helm x y k) v q k
+     = csub (cmul (ik (fst k) (snd k)) (cmul (G_helm x y k) (vcomp c v)))
+            (cmul (cdiv q (ik (fst k) (snd k))) (gradG c x y k))).
+Proof. exact maxwell_potential_integrands. Qed.
+Print Assumptions C08_mfield_is_curl_of_efield_integrand_partial.
+
+(* Maxwell far fields, real k: translating the source by t multiplies every component of both integrands by exp(-ik xhat.t) *)
+Theorem C08_maxwell_far_field_translation :
+  forall (c : nat) (x y t : vec3) (v : cvec3) (q : R * R) (k : R), (c < 3)%nat ->
+  efield_far_field_integrand c x (vadd y t) (G_ff x (vadd y t) (k, 0)) v q (k, 0)
+    = cmul (cexp_mik k 0 (vdot x t)) (efield_far_field_integrand c x y (G_ff x y (k, 0)) v q (k, 0)) /\
+  mfield_far_field_integrand c x (vadd y t) (G_ff x (vadd y t) (k, 0)) v q (k, 0)
+    = cmul (cexp_mik k 0 (vdot x t)) (mfield_far_field_integrand c x y (G_ff x y (k, 0)) v q (k, 0)).
+Proof. exact maxwell_far_field_translation. Qed.
+Print Assumptions C08_maxwell_far_field_translation.
